@@ -31,7 +31,8 @@ CONSTANTS MaxCalls,    \* prepare/process/restart calls before the decision
 TxKind == {"noop", "removeP", "addQ"}
 TxLists == IF TxSet = "small" THEN {<<>>, <<"noop">>, <<"removeP">>, <<"noop", "removeP">>}
            ELSE {<<>>, <<"noop">>, <<"removeP">>, <<"noop", "removeP">>, <<"addQ">>, <<"removeP", "addQ">>}
-Blocks == [prices : BOOLEAN, txs : TxLists]
+\* bad: a faulty proposer appended a transaction that cannot execute (a nonce gap): every honest node refuses the block
+Blocks == [prices : BOOLEAN, txs : TxLists, bad : BOOLEAN]
 
 PairInit == [ex |-> TRUE, nonce |-> 0, priced |-> FALSE, ntx |-> 0]
 Err == [ex |-> FALSE, nonce |-> 99, priced |-> FALSE, ntx |-> 99]     \* the call returned an error
@@ -48,7 +49,7 @@ ApplyTxs(s, txs) == IF txs = <<>> THEN s ELSE ApplyTxs(ApplyTx(s, Head(txs)), Ta
 
 Canonical(c, b) == ApplyTxs(IF b.prices THEN ApplyPrices(c) ELSE c, b.txs)
 \* blocks an honest proposer can build on c and honest validators accept (ProcessProposal does not apply prices)
-Proposable(c, b) == ~IsErr(ApplyTxs(c, b.txs))
+Proposable(c, b) == ~b.bad /\ ~IsErr(ApplyTxs(c, b.txs))
 
 VARIABLES committed,  \* committed chain state
           work,       \* the App's in-memory state delta (as the resulting abstract state)
@@ -57,7 +58,7 @@ VARIABLES committed,  \* committed chain state
 vars == <<committed, work, es, calls, decided, result, hist>>
 View == <<committed, work, es, calls, decided, result>>
 
-NoBlock == [prices |-> FALSE, txs |-> <<"none">>]
+NoBlock == [prices |-> FALSE, txs |-> <<"none">>, bad |-> FALSE]
 ES(k, b) == [k |-> k, b |-> b]
 Unset == ES("unset", NoBlock)
 
@@ -70,32 +71,33 @@ Prepare(b) ==
   /\ decided = NoBlock /\ calls < MaxCalls /\ Proposable(committed, b)
   /\ work' = ApplyTxs(committed, b.txs)
   /\ es' = ES("prepared", b)
-  /\ calls' = calls + 1 /\ hist' = Append(hist, [op |-> "prepare", b |-> b])
+  /\ calls' = calls + 1 /\ hist' = Append(hist, [op |-> "prepare", b |-> b, ok |-> TRUE])
   /\ UNCHANGED <<committed, decided, result>>
 
 \* process_proposal(b)
 Process(b) ==
   /\ decided = NoBlock /\ calls < MaxCalls
-  /\ calls' = calls + 1 /\ hist' = Append(hist, [op |-> "process", b |-> b])
+  \* the verdict must be the one a node gives that sees this proposal first: accept iff the block is proposable
+  /\ calls' = calls + 1 /\ hist' = Append(hist, [op |-> "process", b |-> b, ok |-> Proposable(committed, b)])
   /\ LET skip == es.k \in {"prepared", "preparedValid"} /\ es.b = b IN
      IF skip
        THEN /\ work' = work /\ es' = ES("executed", b)         \* PreparedValid, then set_executed_block
        ELSE LET w == ApplyTxs(committed, b.txs) IN              \* reset, execute
-            IF IsErr(w) THEN /\ work' = committed /\ es' = Unset    \* proposal rejected
+            IF IsErr(w) \/ b.bad THEN /\ work' = committed /\ es' = Unset    \* proposal rejected: nothing of it may remain
                         ELSE /\ work' = w /\ es' = ES("executed", b)
   /\ UNCHANGED <<committed, decided, result>>
 
 \* the node restarts: a new App from storage
 Restart ==
   /\ decided = NoBlock /\ calls < MaxCalls
-  /\ calls' = calls + 1 /\ hist' = Append(hist, [op |-> "restart", b |-> NoBlock])
+  /\ calls' = calls + 1 /\ hist' = Append(hist, [op |-> "restart", b |-> NoBlock, ok |-> TRUE])
   /\ work' = committed /\ es' = Unset
   /\ UNCHANGED <<committed, decided, result>>
 
 \* finalize_block(b): consensus decided b (a block honest validators accept)
 Finalize(b) ==
   /\ decided = NoBlock /\ Proposable(committed, b)
-  /\ decided' = b /\ hist' = Append(hist, [op |-> "finalize", b |-> b])
+  /\ decided' = b /\ hist' = Append(hist, [op |-> "finalize", b |-> b, ok |-> TRUE])
   /\ LET skip == es.k = "executed" /\ es.b = b
          w == IF skip /\ "F3" \in Dev
                 THEN (IF b.prices THEN ApplyPrices(work) ELSE work)     \* as coded: prices AFTER the cached execution
